@@ -241,6 +241,8 @@ def expand_fn(repo, d, log):
                 mid, tail = f" {{ Some({x}) => {x}, None => (", ") }"
             elif meth == "map_err" and len(pats) == 1:
                 mid, tail = f" {{ Ok({x}) => Ok({x}), Err({pats[0]}) => Err(", ") }"
+            elif meth == "filter" and len(pats) == 1:
+                mid, tail = f" {{ Some({x}) => if {{ let {pats[0]} = &{x}; ", f" }} {{ Some({x}) }} else {{ None }}, None => None }}"
             elif meth == "then" and len(pats) == 0:
                 mid, tail = None, None
             else:
@@ -402,6 +404,43 @@ def expand_closure_lift(repo, d, log):
     return segs, info
 
 
+def expand_bitflags(repo, d, log):
+    """X8: the `bitflags!` invocation that declares <Name> is replaced by a plain struct over the same integer type
+    with the same constants (values copied from the invocation) and the handful of bitflags methods the covered
+    code uses, each with the obvious bit-level contract (TRUSTED stand-in for the bitflags crate)."""
+    rel, name = d["file"], d["path"]
+    path = os.path.join(repo, rel)
+    if not os.path.exists(path):
+        raise GenError(f"source file {rel} does not exist in the tree")
+    src = open(path).read()
+    m = re.search(r"bitflags!\s*\{(?:(?!bitflags!).)*?pub struct " + re.escape(name) + r":\s*(\w+)\s*\{(.*?)\n    \}\s*\n\}", src, re.S)
+    if not m:
+        raise GenError(f"{rel}: bitflags! declaration of {name} not found")
+    ty, body = m.group(1), m.group(2)
+    consts = re.findall(r"const\s+(\w+)\s*=\s*(.*?);", body, re.S)
+    if not consts:
+        raise GenError(f"{rel}: no constants in bitflags {name}")
+    out = [f"#[derive(Clone, Copy)]\npub struct {name} {{ pub bits: {ty} }}", f"impl {name} {{"]
+    for cn, ce in consts:
+        e = " ".join(ce.split()).replace(".bits()", ".bits")
+        out.append(f"    pub const {cn}: {name} = {name} {{ bits: {e} }};")
+    out.append(f"""    pub open spec fn has(&self, other: {name}) -> bool {{ self.bits & other.bits == other.bits }}
+    pub open spec fn meets(&self, other: {name}) -> bool {{ self.bits & other.bits != 0 }}
+    #[verifier::external_body] pub fn contains(&self, other: Self) -> (r: bool) ensures r == self.has(other) {{ self.bits & other.bits == other.bits }}
+    #[verifier::external_body] pub fn intersects(&self, other: Self) -> (r: bool) ensures r == self.meets(other) {{ self.bits & other.bits != 0 }}
+    #[verifier::external_body] pub fn empty() -> (r: Self) ensures r.bits == 0 {{ Self {{ bits: 0 }} }}
+    #[verifier::external_body] pub fn bits(&self) -> (r: {ty}) ensures r == self.bits {{ self.bits }}
+    #[verifier::external_body] pub fn union(self, other: Self) -> (r: Self) ensures r.bits == self.bits | other.bits {{ Self {{ bits: self.bits | other.bits }} }}
+    #[verifier::external_body] pub fn insert(&mut self, other: Self) ensures final(self).bits == old(self).bits | other.bits {{ self.bits |= other.bits; }}
+}}""")
+    text = "\n".join(out) + "\n"
+    line = src.count("\n", 0, m.start()) + 1
+    log.append({"rule": "X8:bitflags", "file": rel, "item": name, "line": line,
+                "before": "bitflags! { struct " + name + ": " + ty + " { " + ", ".join(c for c, _ in consts) + " } }",
+                "after": "plain struct with the same constants and trusted contains/intersects/empty/bits/union/insert"})
+    return [(text.encode(), ("tmpl", d["tline"]))], {"file": rel, "path": name, "kind": "bitflags", "line": line, "consts": [c for c, _ in consts]}
+
+
 DIRECTIVE = re.compile(r"/\*@ (.*?)@\*/", re.S)
 
 
@@ -437,6 +476,9 @@ def expand(repo, template_path, out_path, include_dirs=()):
         elif d["kind"] in ("const", "macro", "trait", "impl"):
             segs, info = expand_verbatim(repo, d, d["kind"], log)
             others.append(info)
+        elif d["kind"] == "bitflags":
+            segs, info = expand_bitflags(repo, d, log)
+            types.append(info)
         elif d["kind"] == "lift":
             segs, info = expand_closure_lift(repo, d, log)
             fns.append(info)
